@@ -20,6 +20,7 @@ type helperSite struct {
 
 func (p *Prog) buildHelperIndex() {
 	p.helperOf = map[*Func]*helperSite{}
+	p.sharedHelpers = map[*Func][]*Func{}
 	// functions used as values (method values, callbacks): dynamic callers unknown
 	valueUse := map[*types.Func]bool{}
 	for _, f := range p.fileOf {
@@ -80,6 +81,25 @@ func (p *Prog) buildHelperIndex() {
 			continue
 		}
 		sites := p.CallSites(fn.Obj)
+		if len(sites) >= 2 && p.baselineKnown != nil && !p.baselineKnown[fn.Name] {
+			// a private function the rules were not written against, with several call sites: a block that was
+			// duplicated in its callers and has been moved into one shared helper
+			okAll := true
+			for _, cs := range sites {
+				if cs.Caller == fn {
+					okAll = false
+				}
+			}
+			if okAll {
+				seenCaller := map[*Func]bool{}
+				for _, cs := range sites {
+					if !seenCaller[cs.Caller] {
+						seenCaller[cs.Caller] = true
+						p.sharedHelpers[cs.Caller] = append(p.sharedHelpers[cs.Caller], fn)
+					}
+				}
+			}
+		}
 		if len(sites) != 1 {
 			continue
 		}
@@ -142,8 +162,28 @@ func (p *Prog) HelpersOf(fn *Func) []*Func {
 			out = append(out, h)
 		}
 	}
+	if experimentalShared {
+		seen := map[*Func]bool{fn: true}
+		for _, h := range out {
+			seen[h] = true
+		}
+		work := append([]*Func{fn}, out...)
+		for len(work) > 0 {
+			cur := work[0]
+			work = work[1:]
+			for _, h := range p.sharedHelpers[cur] {
+				if !seen[h] {
+					seen[h] = true
+					out = append(out, h)
+					work = append(work, h)
+				}
+			}
+		}
+	}
 	return out
 }
+
+var experimentalShared = true
 
 // inheritState builds the entry state of helper fn from the state at its sole call site.
 func (w *walker) inheritState(hs *helperSite, cst *State) *State {
@@ -322,7 +362,7 @@ func (p *Prog) CanonSrc(e ast.Expr, env *Env, depth int) string {
 	case *ast.Ident:
 		if depth < 6 && env != nil {
 			if o := p.ObjOf(x); o != nil {
-				if d := env.get(o); d != nil && d.Rhs != nil && d.Kind == DefAssign && d.Idx <= 0 && !d.Param {
+				if d := env.get(o); d != nil && d.Rhs != nil && d.Kind == DefAssign && d.Idx <= 0 {
 					s := p.CanonSrc(d.Rhs, d.Env, depth+1)
 					if _, isBin := unparen(d.Rhs).(*ast.BinaryExpr); isBin {
 						return "(" + s + ")"
@@ -350,4 +390,296 @@ func (p *Prog) CanonSrc(e ast.Expr, env *Env, depth int) string {
 		return sub(x.Fun) + "(" + strings.Join(args, ", ") + ")"
 	}
 	return p.Src(e)
+}
+
+// ---------------------------------------------------------------- predicate summaries
+
+// predSummary: the facts that hold whenever a boolean function answers true (resp. false): the join of the
+// states at every return statement that can produce that answer (the returned expression itself included).
+type predSummary struct {
+	when map[bool]*State
+}
+
+func (p *Prog) predicateSummary(fn *Func) *predSummary {
+	if fn == nil || fn.Decl.Body == nil {
+		return nil
+	}
+	if s, ok := p.predCache[fn]; ok {
+		return s
+	}
+	if p.predCache == nil {
+		p.predCache = map[*Func]*predSummary{}
+	}
+	p.predCache[fn] = nil // in progress / not a predicate
+	res := fn.Decl.Type.Results
+	if res == nil || len(res.List) != 1 || len(res.List[0].Names) > 1 {
+		return nil
+	}
+	if b, ok := p.TypeOf(res.List[0].Type).Underlying().(*types.Basic); !ok || b.Info()&types.IsBoolean == 0 {
+		return nil
+	}
+	if len(res.List[0].Names) == 1 {
+		return nil // named result: bare returns
+	}
+	r := p.Walk(fn)
+	if len(r.undecided) > 0 {
+		return nil
+	}
+	w := &walker{p: p, fn: fn, res: r}
+	ends := map[bool][]*State{}
+	for _, ex := range r.exits {
+		rs, ok := ex.Node.(*ast.ReturnStmt)
+		if ex.Lit != nil {
+			continue
+		}
+		if !ok || len(rs.Results) != 1 || ex.State == nil {
+			return nil
+		}
+		for _, v := range []bool{true, false} {
+			if p.isConstBool(rs.Results[0], !v) {
+				continue
+			}
+			st := ex.State
+			if !p.isConstBool(rs.Results[0], v) {
+				st = w.addFact(st, rs.Results[0], v)
+			}
+			ends[v] = append(ends[v], st)
+		}
+	}
+	s := &predSummary{when: map[bool]*State{}}
+	for _, v := range []bool{true, false} {
+		if len(ends[v]) == 0 {
+			continue
+		}
+		st := ends[v][0]
+		for _, o := range ends[v][1:] {
+			st = join(st, o)
+		}
+		s.when[v] = st
+	}
+	p.predCache[fn] = s
+	return s
+}
+
+// impliedByCall: the atoms implied by `call == val` for a call of a boolean module function.
+func (p *Prog) impliedByCall(call *ast.CallExpr, val bool, env *Env, depth int) []Atom {
+	callee := p.Callee(call)
+	if callee == nil {
+		return nil
+	}
+	fn := p.FuncOf[callee]
+	if fn == nil || call.Ellipsis != 0 {
+		return nil
+	}
+	s := p.predicateSummary(fn)
+	if s == nil || s.when[val] == nil {
+		return nil
+	}
+	// bind the parameters to the arguments (in the environment of the call)
+	binds := map[types.Object]*Def{}
+	bind := func(id *ast.Ident, arg ast.Expr) {
+		if id == nil || arg == nil || id.Name == "_" {
+			return
+		}
+		if o := p.ObjOf(id); o != nil {
+			binds[o] = &Def{Rhs: arg, Idx: -1, Kind: DefAssign, Env: env, Param: true}
+		}
+	}
+	fd := fn.Decl
+	if fd.Recv != nil && len(fd.Recv.List) > 0 && len(fd.Recv.List[0].Names) > 0 {
+		bind(fd.Recv.List[0].Names[0], Recv(call))
+	}
+	i := 0
+	if fd.Type.Params != nil {
+		for _, f := range fd.Type.Params.List {
+			if _, variadic := f.Type.(*ast.Ellipsis); variadic {
+				break
+			}
+			for _, nm := range f.Names {
+				if i < len(call.Args) {
+					bind(nm, call.Args[i])
+				}
+				i++
+			}
+			if len(f.Names) == 0 {
+				i++
+			}
+		}
+	}
+	rebound := map[*Env]*Env{}
+	reb := func(e *Env) *Env {
+		if n, ok := rebound[e]; ok {
+			return n
+		}
+		n := &Env{m: map[types.Object]*Def{}}
+		if e != nil {
+			for k, v := range e.m {
+				if v != nil && v.Param {
+					continue // binding of the sole call site: this call's own binding wins
+				}
+				n.m[k] = v
+			}
+		}
+		for k, v := range binds {
+			n.m[k] = v
+		}
+		rebound[e] = n
+		return n
+	}
+	var out []Atom
+	inherited := p.Walk(fn).inheritedFacts
+	for _, f := range s.when[val].Facts {
+		if f.Alt != nil || inherited[f] {
+			continue
+		}
+		out = append(out, p.atoms(f.E, f.Val, reb(f.Env), f.Frozen, depth+1)...)
+	}
+	return out
+}
+
+// isRecvTerm: t is (through local aliases and parameter bindings of helpers) the receiver of fn.
+func (p *Prog) isRecvTerm(fn *Func, t Term) bool {
+	r := p.recvObj(fn)
+	if r == nil {
+		return false
+	}
+	for _, c := range p.chain(t) {
+		if id, ok := unparen(c.E).(*ast.Ident); ok && p.ObjOf(id) == r {
+			return true
+		}
+	}
+	return false
+}
+
+// inFn: owner is fn or an extracted-block helper of fn.
+func (p *Prog) inFn(owner, fn *Func) bool {
+	return owner == fn || (owner != nil && p.HelperSite(owner) != nil && p.HelperRoot(owner) == fn)
+}
+
+// InspectDeep visits the body of fn and the bodies of its private helpers (extracted blocks and shared helpers).
+func (p *Prog) InspectDeep(fn *Func, visit func(n ast.Node) bool) {
+	if fn == nil || fn.Decl.Body == nil {
+		return
+	}
+	ast.Inspect(fn.Decl.Body, visit)
+	for _, h := range p.HelpersOf(fn) {
+		if h.Decl.Body != nil {
+			ast.Inspect(h.Decl.Body, visit)
+		}
+	}
+}
+
+// Multiplicity: how many functions a private helper stands in for (1 for every other function): a block that
+// existed in k functions and was moved into one shared helper still counts k times in a floor.
+func (p *Prog) Multiplicity(fn *Func) int {
+	if p.helperOf == nil {
+		p.buildHelperIndex()
+	}
+	n := 0
+	for _, hs := range p.sharedHelpers {
+		for _, h := range hs {
+			if h == fn {
+				n++
+			}
+		}
+	}
+	if n < 1 {
+		n = 1
+	}
+	return n
+}
+
+// argOfType: the unique argument of the call whose (pointer-stripped) named type is typ ("objects.Allocation");
+// nil when none or several match.  Selecting by type keeps a rule independent of the parameter order of
+// unexported functions.
+func (p *Prog) argOfType(call *ast.CallExpr, typ string) ast.Expr {
+	var found ast.Expr
+	for _, a := range call.Args {
+		if p.TypeName(p.TypeOf(a)) == typ {
+			if found != nil {
+				return nil
+			}
+			found = a
+		}
+	}
+	return found
+}
+
+// isParamTerm: t is (through local aliases and parameter bindings of helpers) the i-th parameter of fn.
+func (p *Prog) isParamTerm(fn *Func, t Term, i int) bool {
+	o := paramObj(p, fn, i)
+	if o == nil {
+		return false
+	}
+	for _, c := range p.chain(t) {
+		if id, ok := unparen(c.E).(*ast.Ident); ok && p.ObjOf(id) == o {
+			return true
+		}
+	}
+	return false
+}
+
+// reaches: some term of t's definition chain is a call of one of the named functions.
+func (p *Prog) reaches(t Term, names ...string) bool {
+	for _, c := range p.chain(t) {
+		if call, ok := unparen(c.E).(*ast.CallExpr); ok && p.IsCall(call, names...) {
+			return true
+		}
+	}
+	return false
+}
+
+// paramOfType: index of the unique parameter of fn whose type prints as typ ("string", "*objects.Allocation");
+// -1 when none or several.
+func (p *Prog) paramOfType(fn *Func, typ string) int {
+	found, k := -1, 0
+	if fn == nil || fn.Decl.Type.Params == nil {
+		return -1
+	}
+	for _, f := range fn.Decl.Type.Params.List {
+		n := len(f.Names)
+		if n == 0 {
+			n = 1
+		}
+		for i := 0; i < n; i++ {
+			t := p.TypeOf(f.Type)
+			s := ""
+			if t != nil {
+				s = types.TypeString(t, func(pk *types.Package) string { return p.PkgShort(pk.Path()) })
+			}
+			if s == typ {
+				if found >= 0 {
+					return -1
+				}
+				found = k
+			}
+			k++
+		}
+	}
+	return found
+}
+
+// returnsNilOr: every return of fn yields nil or (through locals) the result of one of the named functions.
+func (p *Prog) returnsNilOr(fn *Func, names ...string) bool {
+	if fn == nil || fn.Decl.Body == nil {
+		return false
+	}
+	n := 0
+	for _, ex := range p.Walk(fn).exits {
+		rs, ok := ex.Node.(*ast.ReturnStmt)
+		if ex.Lit != nil {
+			continue
+		}
+		if !ok || len(rs.Results) != 1 {
+			return false
+		}
+		n++
+		if p.isNilExpr(rs.Results[0]) {
+			continue
+		}
+		if !p.reaches(T(rs.Results[0], ex.State), names...) {
+			return false
+		}
+	}
+	return n > 0
 }
